@@ -20,6 +20,11 @@ pub mod util;
 pub mod classic;
 pub mod compiler;
 
+// Seams for external verification harnesses (scheduling points and iteration
+// order control).  Compiled only with the `verif-hooks` feature.
+#[cfg(feature = "verif-hooks")]
+pub mod verif_hooks;
+
 // Python impl
 #[cfg(all(not(test), not(target_family = "wasm"), feature = "extension-module"))]
 mod py;
